@@ -318,3 +318,48 @@ class CopyOnWriteIsDeep(_c03.MkCopy):
 class EveryCommitHoldsMdibLock(_c02.TransactionManager):
     id = 'C07.every_commit_holds_mdib_lock'
     prop = 'C07'
+
+
+# GetMdState / GetContextStates serialise the selected state objects AFTER the critical section. That is a snapshot
+# only if writing a state to XML depends on nothing but the state object's own members: descriptors are updated in
+# place by later commits, so a serialiser that looks at (or synchronises with) descriptor_container would mix versions.
+import ast as _ast   # noqa: E402
+from pyvc.api import ScanCheck   # noqa: E402
+
+_SERIALISERS = ('mk_state_node', 'mk_node', 'update_node', 'as_etree_node', 'update_xml_value')
+
+
+@register
+class StateSerialisationIsSelfContained(ScanCheck):
+    id = 'C07.state_serialisation_reads_only_the_state'
+    prop = 'C07'
+    doc = ('exhaustive scan of mdib/statecontainers.py and mdib/containerbase.py: no method a state container is '
+           'written to XML with (mk_state_node, mk_node, update_node and overrides in any state class) reads '
+           'descriptor_container / source_mds, calls a version-changing method or assigns a member of the state (except giving a handle-less multi state its '
+           'handle; stored states always have one) - '
+           'what is serialised after the lock is exactly what the state object held inside it')
+
+    def scan(self, repo):
+        out = []
+        n_methods = 0
+        for modname in ('sdc11073.mdib.statecontainers', 'sdc11073.mdib.containerbase'):
+            mod = repo.module(modname)
+            for cname, cdef in sorted(mod.classes.items()):
+                for fn in cdef.body:
+                    if not isinstance(fn, (_ast.FunctionDef, _ast.AsyncFunctionDef)) or fn.name not in _SERIALISERS:
+                        continue
+                    n_methods += 1
+                    bad = []
+                    for n in _ast.walk(fn):
+                        if isinstance(n, _ast.Attribute) and n.attr in ('descriptor_container', 'source_mds'):
+                            bad.append(f'line {n.lineno}: reads .{n.attr}')
+                        if isinstance(n, _ast.Call) and isinstance(n.func, _ast.Attribute) and n.func.attr in (
+                                'update_descriptor_version', 'increment_state_version', 'increment_descriptor_version',
+                                'update_from_other_container', 'update_from_node'):
+                            bad.append(f'line {n.lineno}: calls {n.func.attr}()')
+                        if isinstance(n, _ast.Attribute) and isinstance(n.ctx, (_ast.Store, _ast.Del)) \
+                                and isinstance(n.value, _ast.Name) and n.value.id == 'self' and n.attr not in ('node', 'Handle'):
+                            bad.append(f'line {n.lineno}: assigns self.{n.attr}')
+                    out.append((f'serialiser.{cname}.{fn.name}', not bad, {'class': cname, 'method': fn.name, 'findings': '; '.join(bad)}))
+        out.append(('serialisers_found', n_methods >= 4, {'methods': n_methods}))
+        return out
